@@ -530,4 +530,68 @@ def r10_8(run):
     run.floor(40)
 
 
-RULES = [("R10.1", r10_1), ("R10.2", r10_2), ("R10.4", r10_4), ("R10.5", r10_5), ("R10.6", r10_6), ("R10.7", r10_7), ("R10.8", r10_8)]
+_IDENT_CALLS = ("numpy.array", "numpy.asarray", "numpy.ascontiguousarray", "numpy.float64", "numpy.copy", "numpy.asanyarray")
+
+
+def r10_9(run):
+    """mode "heat": the flows and pressures the temperatures are calculated for are the given hydraulic solution, entry by
+    entry.  use_given_hydraulic_results stores sol_vec[:n_nodes] into PINIT and sol_vec[n_nodes:] into MDOTINIT; up to a
+    dtype conversion / copy nothing is done to the values (a masked overwrite, a clip, an abs() or a sign filter would
+    make the cooling law and the mixing be evaluated for a flow that is not the reported one)."""
+    from ..arrnf import ANF, key, show
+    ix = run.index
+    f = ix.func(P + ".use_given_hydraulic_results")
+    params = [a.arg for a in f.node.args.args]
+    if len(params) < 2:
+        raise AnalysisError("use_given_hydraulic_results no longer takes (net, sol_vec)")
+    sv = params[1]
+    r = ANF(ix, f, strip=False).run()
+
+    def strip(t):
+        while isinstance(t, tuple) and t:
+            if t[0] == "call" and t[1][0] == "x" and t[1][1] in _IDENT_CALLS and t[2]:
+                t = t[2][0]
+            elif t[0] == "call" and t[1][0] == "attr" and t[1][2] in ("astype", "copy", "ravel", "flatten"):
+                t = t[1][1]
+            else:
+                break
+        return t
+
+    def pit_len(t, which):
+        return (isinstance(t, tuple) and t[0] == "call" and t[1] == ("x", "builtins.len") and len(t[2]) == 1
+                and key(t[2][0]) == key(("idx", ("idx", ("n", params[0]), (("c", "_pit"),)), (("c", which),))))
+
+    def bound_ok(t, col):
+        if not (isinstance(t, tuple) and t[0] == "idx" and t[1] == ("n", sv) and len(t[2]) == 1 and t[2][0][0] == "slice"):
+            return False
+        lo, hi, st = t[2][0][1:4]
+        if st != ("c", None):
+            return False
+        if col == "idx_node.PINIT":
+            return lo in (("c", None), ("c", 0)) and pit_len(hi, "node")
+        if not pit_len(lo, "node"):
+            return False
+        if hi == ("c", None):
+            return True
+        return (hi[0] == "opn" and hi[1] == "+" and len(hi[2]) == 2 and sorted(
+            ("node" if pit_len(x, "node") else "branch" if pit_len(x, "branch") else "?") for x in hi[2]) == ["branch", "node"])
+
+    seen = {}
+    for e in r.events:
+        if e.kind != "store" or not e.index or len(e.index) != 2 or e.index[1][0] != "k":
+            continue
+        col = e.index[1][1]
+        if col not in ("idx_node.PINIT", "idx_branch.MDOTINIT"):
+            continue
+        v = strip(e.value)
+        ok = e.index[0] == ("slice", ("c", None), ("c", None), ("c", None)) and bound_ok(v, col)
+        seen[col] = seen.get(col, True) and ok
+        run.ob("use_given_hydraulic_results|%s|given-solution-unchanged" % col.split(".")[1], ok,
+               "the %s column of all rows is the corresponding slice of the given solution vector, values untouched" % col.split(".")[1],
+               run.where(f, e.node), detail=None if ok else show(e.value)[:200])
+    if set(seen) != {"idx_node.PINIT", "idx_branch.MDOTINIT"}:
+        raise AnalysisError("use_given_hydraulic_results: the stores into PINIT and MDOTINIT were not both found (%s)" % sorted(seen))
+    run.floor(2)
+
+
+RULES = [("R10.1", r10_1), ("R10.2", r10_2), ("R10.4", r10_4), ("R10.5", r10_5), ("R10.6", r10_6), ("R10.7", r10_7), ("R10.8", r10_8), ("R10.9", r10_9)]
